@@ -1,8 +1,11 @@
 (* C17 — limits and life cycle.  Model: coq/theories/Tab/Lifecycle.v (Tableau.__init__, the
    logic / argument setters, build_trunk, step, finish, build, _check_timeout,
-   _is_max_steps_exceeded, valid / invalid / premature / completed, rule-set locking).  The
-   proof search is abstracted to a supply of c_n rule applications, the clock to one bit per
-   consultation of the build timer; `run c ops` is the state after ANY operation sequence. *)
+   _is_max_steps_exceeded, valid / invalid / premature / completed, rule-set locking, branches
+   added by hand with Tableau.branch() + one conjunction node).  The proof search is abstracted to
+   a supply of rule applications (c_n for the trunk once built + c_h per hand-made branch of a
+   tableau with a logic), the clock to one bit per consultation of the build timer; `run c ops`
+   is the state after ANY sequence of Step / Finish / Build / SetArgument / SetLogic / BuildTrunk /
+   AddRule / HandBranch. *)
 From Coq Require Import List Bool Arith ZArith.
 From PT Require Import Tab.Lifecycle Tab.LifecycleProofs.
 Import ListNotations.
@@ -36,11 +39,26 @@ Theorem C17_premature_no_verdict : forall c s, premature s = true -> valid c s =
 Proof. exact premature_no_verdict. Qed.
 Print Assumptions C17_premature_no_verdict.
 
-(* a limit above the proof's natural length changes nothing; None, 0, negative mean unlimited *)
-Theorem C17_big_limit_noop : forall c L ops, (Z.of_nat (c_n c) < L)%Z ->
+(* a limit above the natural length of the proof that the run builds (supply = c_n once the trunk
+   is built + c_h per hand-made branch of a tableau with a logic, read off the unlimited run)
+   changes nothing; None, 0, negative mean unlimited *)
+Theorem C17_big_limit_noop_run : forall c L ops,
+  (Z.of_nat (supply c (run (with_limit c None) ops)) < L)%Z ->
+  trace (with_limit c (Some L)) init ops = trace (with_limit c None) init ops.
+Proof. exact big_limit_noop_run. Qed.
+Print Assumptions C17_big_limit_noop_run.
+
+(* ... in particular a limit above c_n + c_h * (number of HandBranch operations) *)
+Theorem C17_big_limit_noop : forall c L ops, (Z.of_nat (c_n c + c_h c * count_hand ops) < L)%Z ->
   trace (with_limit c (Some L)) init ops = trace (with_limit c None) init ops.
 Proof. exact big_limit_noop. Qed.
 Print Assumptions C17_big_limit_noop.
+
+(* ... and, without hand-made branches, above the natural length c_n of the argument's proof *)
+Theorem C17_big_limit_noop_no_hand : forall c L ops, ~ In HandBranch ops -> (Z.of_nat (c_n c) < L)%Z ->
+  trace (with_limit c (Some L)) init ops = trace (with_limit c None) init ops.
+Proof. exact big_limit_noop_no_hand. Qed.
+Print Assumptions C17_big_limit_noop_no_hand.
 
 Theorem C17_nonpositive_limit_unlimited : forall c z ops, (z <= 0)%Z ->
   trace (with_limit c (Some z)) init ops = trace (with_limit c None) init ops.
@@ -61,8 +79,9 @@ Theorem C17_finished_idempotent : forall c s, finished s = true ->
 Proof. exact finished_idempotent. Qed.
 Print Assumptions C17_finished_idempotent.
 
-(* once started: the setters and build_trunk raise IllegalState and change nothing; every
-   operation keeps the logic, the argument and the rule set; the rule set refuses additions *)
+(* once started (by build_trunk or by the first rule application on a hand-made branch): the
+   setters and build_trunk raise IllegalState and change nothing; every operation (HandBranch
+   included) keeps the logic, the argument and the rule set; the rule set refuses additions *)
 Theorem C17_setters_locked : forall c ops o, let s := run c ops in started s = true ->
   exec c s SetArgument = (s, RErr IllegalState) /\
   exec c s SetLogic = (s, RErr IllegalState) /\
@@ -75,7 +94,7 @@ Proof.
   intros c ops o s St. pose proof (Inv_run c ops) as I. fold s in I.
   destruct (setters_locked c s St) as (A & B & C).
   repeat split; try assumption.
-  - cbn [exec]. apply rules_locked. apply (i_trunk _ _ I). apply (i_started _ _ I St).
+  - cbn [exec]. apply rules_locked. apply (i_started _ _ I St).
   - apply (started_frozen c s o I St).
   - apply (started_frozen c s o I St).
   - apply (started_frozen c s o I St).
@@ -85,6 +104,13 @@ Proof.
 Qed.
 Print Assumptions C17_setters_locked.
 
+(* the hypothesis of C17_setters_locked covers tableaux started without a trunk *)
+Theorem C17_started_without_trunk : exists c ops, let s := run c ops in
+  started s = true /\ trunk s = false /\ has_arg s = false /\ hist s = 1 /\ finished s = false /\
+  exec c s SetArgument = (s, RErr IllegalState).
+Proof. exists (ex_cfg None None), [SetLogic; HandBranch; Step false false]. exact ex_hand_started. Qed.
+Print Assumptions C17_started_without_trunk.
+
 (* a tableau that was never given an argument never reports a verdict *)
 Theorem C17_no_argument_no_verdict : forall c ops, ~ In SetArgument ops ->
   valid c (run c ops) = None /\ invalid c (run c ops) = None.
@@ -93,7 +119,7 @@ Print Assumptions C17_no_argument_no_verdict.
 
 (* build() = call step() until it yields no entry (same state, same error), and terminates *)
 Theorem C17_build_is_step_loop : forall c k b2 s,
-  exists m, m <= c_n c - hist s /\
+  exists m, m <= supply c s - hist s /\
     Forall (fun r => r = REntry) (snd (step_seq c k b2 0 m s)) /\
     let p := step c (clock k m) b2 (fst (step_seq c k b2 0 m s)) in
     snd p <> REntry /\ build c k b2 s = (fst p, build_res (snd p)).
@@ -110,6 +136,19 @@ Theorem C17_verdict_needs_trunk_refuted :
   exists c ops, let s := run c ops in trunk s = false /\ has_logic s = false /\ valid c s = Some true.
 Proof. exact verdict_needs_trunk_refuted. Qed.
 Print Assumptions C17_verdict_needs_trunk_refuted.
+
+Theorem C17_hand_started_verdict_without_trunk_refuted :
+  exists c ops, let s := run c ops in
+    started s = true /\ trunk s = false /\ snd (exec c s BuildTrunk) = RErr IllegalState /\ invalid c s = Some true.
+Proof. exact hand_started_verdict_without_trunk. Qed.
+Print Assumptions C17_hand_started_verdict_without_trunk_refuted.
+
+(* Tableau.branch() has no guard: on a finished, valid tableau it turns valid into invalid *)
+Theorem C17_hand_branch_flips_verdict :
+  exists c ops, valid c (run c ops) = Some true /\ finished (run c ops) = true /\
+    valid c (run c (ops ++ [HandBranch])) = Some false /\ invalid c (run c (ops ++ [HandBranch])) = Some true.
+Proof. exact hand_branch_flips_verdict. Qed.
+Print Assumptions C17_hand_branch_flips_verdict.
 
 Theorem C17_finished_locked_refuted :
   exists c ops, let s := run c ops in let '(s', r) := exec c s SetArgument in
